@@ -5,6 +5,10 @@ import XModel.TableSpan
 Model: `XModel/Table.lean` (`getRowIndices`, `getRegexpIndices`, `indicesOf`, `maskOf`, `rowsOf`).
 The model has no order oracle (no set iteration): independence of the hash seed is by construction,
 and the correspondence run is repeated under several `PYTHONHASHSEED`s.
+
+**Which tree.**  The model transcribes `/repo` as it stands now: the pinned commit plus the `fix:` commits recorded in
+`/verif/KNOWN_FINDINGS.json` (status `fixed`).  Where a theorem below rests on repaired code — the sorted regexp-count loop, `count_dict.get` — it is false of
+the tree as first pinned; the witnesses are kept (defects D10–D12).
 -/
 namespace Properties.C08
 open TableM Cache
